@@ -38,7 +38,10 @@ RENDERERS = {
     'Jira': ('mistletoe.contrib.jira_renderer', 'JiraRenderer', 'wiki'),
     'XWiki20': ('mistletoe.contrib.xwiki20_renderer', 'XWiki20Renderer', 'wiki'),
 }
-RENDERER_IDS = list(RENDERERS)
+BUNDLED_IDS = list(RENDERERS)          # the ten bundled document renderers
+RENDERERS['UserHtml'] = ('sim.c11_world', 'UserHtmlRenderer', 'html')
+RENDERERS['UserMarkdown'] = ('sim.c11_world', 'UserMarkdownRenderer', 'markdown')
+RENDERER_IDS = list(RENDERERS)         # + user renderers: subclasses that hand their own tokens to super().__init__
 
 _HTML_OPTS = [
     {},
@@ -61,6 +64,8 @@ OPTIONS = {
                  {'style': 'monokai', 'process_html_tokens': False}],
     'Jira': [{}],
     'XWiki20': [{}],
+    'UserHtml': [{}, {'process_html_tokens': False}],
+    'UserMarkdown': [{}, {'max_line_length': 20}],
 }
 
 
@@ -213,6 +218,45 @@ class RenderFaultBlock(BlockToken):
     @staticmethod
     def read(lines):
         return [next(lines)]
+
+
+from mistletoe.html_renderer import HtmlRenderer as _HtmlRenderer              # noqa: E402
+from mistletoe.markdown_renderer import MarkdownRenderer as _MarkdownRenderer, Fragment as _Fragment   # noqa: E402
+
+
+class UserHtmlRenderer(_HtmlRenderer):
+    """What the documentation tells users to write: a renderer subclass that passes its own tokens to super().__init__
+    and defines render_<snake_case_name> methods."""
+    def __init__(self, **kwargs):
+        super().__init__(Curly, Bang, **kwargs)
+
+    def render_curly(self, token):
+        return '<<' + self.render_inner(token) + '>>'
+
+    def render_bang(self, token):
+        return '[[[' + self.render_inner(token) + ']]]'
+
+
+class UserMarkdownRenderer(_MarkdownRenderer):
+    def __init__(self, **kwargs):
+        super().__init__(CurlyRaw, **kwargs)
+
+    def render_curly_raw(self, token):
+        return [_Fragment('{{' + token.content + '}}')]
+
+
+BUILTIN_REMOVABLE_BLOCK = ['Table', 'ThematicBreak', 'CodeFence', 'Heading', 'Quote', 'List', 'BlockCode']
+BUILTIN_REMOVABLE_SPAN = ['Strikethrough', 'AutoLink', 'EscapeSequence', 'LineBreak']
+
+
+def unregister(name):
+    """remove_token of a built-in token by name, as a user who wants to switch a construct off would do; no-op if absent."""
+    for mod in (block_token, span_token):
+        for cls in list(mod._token_types):
+            if cls.__name__ == name and cls is getattr(mod, name, None):
+                mod.remove_token(cls)
+                return True
+    return False
 
 
 TOKENS = {
@@ -417,12 +461,15 @@ def _exec_ctx(bi, block, emit):
     emit({'b': bi, 's': -1, 'kind': 'ENTER', 'outcome': ('ok', 'entered'), 'pre': pre, 'post': fingerprint(r)})
     propagate = block.get('exit') == 'propagate'
     nested_seen = False
+    unwinding = []
     try:
         with r:
             for si, step in enumerate(steps):
                 sk = step['k']
                 if sk == 'ADD':
                     register(step['tok'], step['pos'], rid, r)
+                elif sk == 'REMOVE':
+                    unregister(step['tok'])
                 elif sk == 'NEST':
                     # another renderer's context opened and closed while this one is still active. The tree ties
                     # parsing to ONE active renderer, so outputs produced while nested (and by the outer renderer
@@ -453,6 +500,7 @@ def _exec_ctx(bi, block, emit):
                     emit(rec)
                     if out[0] == 'exc' and propagate and si == len(steps) - 1:
                         # let the exception unwind the with-block, as a caller without try/except would
+                        unwinding.append(caught[0])
                         raise caught[0]
                 elif sk == 'TOC':
                     # TocRenderer's documented second product: the table of contents of what this instance rendered
@@ -466,9 +514,11 @@ def _exec_ctx(bi, block, emit):
                     raise core.HarnessError('unknown step kind %r' % (sk,))
     except core.HarnessError:
         raise
-    except Exception:
-        if not propagate:
-            raise
+    except Exception as e:
+        if not (unwinding and e is unwinding[0]):
+            # leaving the with-block raised something of its own (an __exit__ that fails): an observation like any other
+            fp = fingerprint()
+            emit({'b': bi, 's': -3, 'kind': 'LEAVE', 'outcome': core.norm_exc(e), 'pre': fp, 'post': fp})
 
 
 def _exec_nested(bi, si, step, emit):
@@ -511,7 +561,7 @@ def oracle_history(history, rec, records=None):
         outcomes = {r['s']: r for r in (records or []) if r['b'] == rec['b'] and r['kind'] == 'RENDER'}
         steps = []
         for si, st in enumerate(block['steps'][:rec['s']]):
-            if st['k'] == 'ADD':
+            if st['k'] in ('ADD', 'REMOVE'):
                 steps.append(st)
             elif st['k'] == 'RENDER':
                 if st.get('reclimit') or si not in outcomes:
@@ -527,11 +577,14 @@ def oracle_history(history, rec, records=None):
         return [{'k': 'CTX', 'R': block['R'], 'opts': block.get('opts') or {}, 'exit': 'normal', 'steps': steps + [{'k': 'TOC'}]}]
     if kind in ('MD', 'BARE', 'SCHEME'):
         return [dict(block)]
+    if kind == 'LEAVE':
+        return [{'k': 'CTX', 'R': block['R'], 'opts': block.get('opts') or {}, 'exit': 'normal',
+                 'steps': [st for st in block['steps'] if st['k'] in ('ADD', 'REMOVE')]}]
     if kind == 'ENTER':
         return [{'k': 'CTX', 'R': block['R'], 'opts': block.get('opts') or {}, 'exit': 'normal', 'steps': []}]
     if kind == 'RENDER':
         steps = block['steps']
-        prefix = [s for s in steps[:rec['s']] if s['k'] == 'ADD']
+        prefix = [s for s in steps[:rec['s']] if s['k'] in ('ADD', 'REMOVE')]
         return [{'k': 'CTX', 'R': block['R'], 'opts': block.get('opts') or {}, 'exit': 'normal',
                  'steps': prefix + [steps[rec['s']]]}]
     raise core.HarnessError('no oracle for kind %r' % (kind,))
@@ -540,6 +593,9 @@ def oracle_history(history, rec, records=None):
 def oracle_pick(kind, records):
     """The record of the oracle history that corresponds to the observation."""
     want = [r for r in records if r['kind'] == kind]
+    if not want and kind == 'LEAVE':
+        last = records[-1]
+        return {'kind': 'LEAVE', 'outcome': ('ok', 'left'), 'pre': last['post'], 'post': last['post']}
     if not want:
         # e.g. ENTER failed in the pristine process too: then RENDER has no oracle record;
         # the ENTER record is the answer for ENTER, and a missing RENDER maps to the ENTER outcome
